@@ -82,12 +82,12 @@ def run_diff(a, b):
     return "%d vs %d lines" % (len(la), len(lb))
 
 
-def run_once(sc, lang, multi, env):
+def run_once(sc, lang, multi, env, extra=()):
     out = sc.path("out")
     shutil.rmtree(out, ignore_errors=True)
     os.makedirs(out)
     tgt = ["-d", out] if multi else ["-o", os.path.join(out, "out." + EXT[lang])]
-    r = run_cli(["--lang", lang] + tgt + lang_args(lang) + [sc.path("ws")], cwd=sc.dir, env=env)
+    r = run_cli(["--lang", lang] + tgt + lang_args(lang) + list(extra) + [sc.path("ws")], cwd=sc.dir, env=env)
     files = {}
     for f in sorted(os.listdir(out)):
         files[f] = open(os.path.join(out, f), encoding="utf-8", errors="replace").read()
@@ -107,7 +107,11 @@ def run(check):
                   "or three crates (0-3 of them serde-renamed; `use` from different files of one crate, `use` next to a qualified / self:: / "
                   "crate:: path, two `use` items, a re-exporting crate that is not part of the run; crate names whose byte order differs from "
                   "the order written) in >= 10 fresh processes and under permuted arrival orders: byte-identical and byte-exact against the "
-                  "model; import mixes, overlapping source directories, generic parameter names; the stored witness of the open finding "
+                  "model; workspaces run under a typeshare.toml whose [<language>.type_mappings] tables have 2-8 keys each, some of them names "
+                  "of types one crate defines and another imports (use, grouped use, nested use, glob, qualified paths), the rest foreign names, in "
+                  "folder and single-file mode, six languages, >= 12 fresh processes plus thread counts, arrival orders and the same tables "
+                  "written in another key order: byte-identical and byte-exact against the model; import mixes, overlapping source "
+                  "directories, generic parameter names; the stored witness of the open finding "
                   "duplicate-type-names-arrival-order" % max_exh)
     for t in range(ntrees):
         lang = LANGS[t % 6]
@@ -182,6 +186,8 @@ def run(check):
         import_mix_part(check)
     if not check.has_failing():
         ambiguous_part(check)
+    if not check.has_failing():
+        remapped_imports_part(check)
     if not check.has_failing():
         duplicate_names_part(check)
     if not check.has_failing():
@@ -424,6 +430,254 @@ def ambiguous_part(check):
                 return
         if len(check.samples) < 5:
             check.sample({"lang": lang, "ambiguous_workspace": meta, "runs": len(envs), "distinct_outputs": len(seen)})
+
+
+# ------------------------------------------------------------------ remapped names that crates import from each other
+REMAP_PROVIDERS = ["common", "core-types", "shared_kit", "zeta", "b2", "model", "aa-base"]
+REMAP_CONSUMERS = ["api", "app", "aaa", "zz-svc", "billing", "mid_tier"]
+# names people remap (none of them is special to a back end); they spread over the alphabet, so that the keys that are imported
+# sort before / between / after the other keys of a table
+REMAP_DEFINED = ["Uuid", "Decimal", "Instant", "Duration", "Money", "Email", "Timestamp", "Bytes", "Json", "Locale", "Currency", "Version",
+                 "Digest", "Ulid", "BigInt", "Amount", "Zone", "AccountId", "Hash", "Quantity", "Xid", "Cursor", "Nonce", "Token"]
+REMAP_FOREIGN = ["NaiveDate", "IpAddr", "Regex", "Semver", "Mime", "Oid", "Bson", "Zoned", "Asn", "Ratio", "Yaml", "Country", "Iban", "Ksuid"]
+REMAP_FOREIGN_CRATES = ["chrono", "ipnet", "regex", "bson", "mime", "iso"]
+REMAP_VALUES = {"typescript": ["string", "number", "Date", "bigint", "Uint8Array"],
+                "kotlin": ["java.util.UUID", "java.time.Instant", "java.math.BigDecimal", "String", "java.net.URI", "Long"],
+                "swift": ["UUID", "Date", "Decimal", "String", "Data", "Int64"],
+                "scala": ["java.util.UUID", "java.time.Instant", "BigDecimal", "String", "Long"],
+                "go": ["string", "int64", "uuid.UUID", "decimal.Decimal", "[]byte"],
+                "python": ["str", "int", "UUID", "Decimal", "bytes"]}
+REMAP_STYLES = ["use", "use", "group", "group", "nested", "qualified", "qualified", "qualified-deep", "glob"]
+
+
+def remapped_workspace(rng, k):
+    """a workspace whose crates import type names from each other.  One or two provider crates define 3-5 types each (newtypes,
+    structs, unit enums); one or two consumer crates of one or two files each refer to 2-5 of them - `use p::T;`, `use p::{T, U};`,
+    `use p::models::T;`, `use p::*;`, a field of type `p::T` or `p::models::T` - and to 0-2 names of crates that are not part of the run
+    (`use chrono::NaiveDate;`); a consumer may define a type of its own.  Returns the files and the name classes the mapping tables are
+    drawn from."""
+    ts = [m_path("typeshare")]
+    nprov, ncons = rng.choice([1, 1, 2]), rng.choice([1, 1, 2])
+    provs, conss = rng.sample(REMAP_PROVIDERS, nprov), rng.sample(REMAP_CONSUMERS, ncons)
+    names = rng.sample(REMAP_DEFINED, len(REMAP_DEFINED))
+    files, defined = [], {}
+
+    def definition(name, j):
+        if j % 3 == 0:
+            return {"kind": "struct", "attrs": list(ts), "ident": name, "generics": [],
+                    "fields": ("unnamed", [field([], None, t_path(rng.choice(["String", "u32", "i32", "bool"])))])}
+        if j % 3 == 1:
+            return {"kind": "struct", "attrs": list(ts), "ident": name, "generics": [],
+                    "fields": ("named", [field([], "%s_value" % name.lower(), t_path("u32")), field([], "label", t_path("String"))])}
+        return {"kind": "enum", "attrs": list(ts), "ident": name, "generics": [],
+                "variants": [{"attrs": [], "ident": v + name, "fields": ("unit",)} for v in ("Small", "Large")]}
+    for pc in provs:
+        mine = [names.pop() for _ in range(rng.randint(3, 5))]
+        start = rng.randrange(3)
+        for j, nm in enumerate(mine):
+            defined[nm] = pc.replace("-", "_")
+        files.append(dict(rel="%s/src/lib.rs" % pc, crate=pc.replace("-", "_"),
+                          file={"attrs": [], "items": [definition(nm, start + j) for j, nm in enumerate(mine)]}))
+    wrap = lambda t, j: [t, t_path("Vec", [t]), t_path("Option", [t]), t_path("HashMap", [t_path("String"), t])][j % 4]
+    imported, styles, own, foreign_used = set(), {}, [], []
+    for ci, cc in enumerate(conss):
+        for fi in range(rng.choice([1, 1, 2])):
+            used = rng.sample(sorted(defined), rng.randint(2, min(5, len(defined))))
+            uses, tys, groups, globbed = [], [], {}, set()
+            for t in used:
+                st = rng.choice(REMAP_STYLES)
+                p = defined[t]
+                styles["%s/%d:%s" % (cc, fi, t)] = st
+                if st == "use":
+                    uses.append(("upath", p, ("uname", t)))
+                    tys.append(t_path(t))
+                elif st == "group":
+                    groups.setdefault(p, []).append(t)
+                    tys.append(t_path(t))
+                elif st == "nested":
+                    uses.append(("upath", p, ("upath", "models", ("uname", t))))
+                    tys.append(t_path(t))
+                elif st == "qualified":
+                    tys.append(t_path(t, quals=[p]))
+                elif st == "qualified-deep":
+                    tys.append(t_path(t, quals=[p, "models"]))
+                else:
+                    if p not in globbed:
+                        globbed.add(p)
+                        uses.append(("upath", p, ("uglob",)))
+                    tys.append(t_path(t))
+                imported.add(t)
+            for p, ts_ in groups.items():
+                uses.append(("upath", p, ("ugroup", [("uname", t) for t in ts_] + ([("upath", "sub", ("uname", "Unshared"))] if rng.random() < 0.3 else []))))
+            for _ in range(rng.choice([0, 0, 1, 2])):
+                fn_ = rng.choice([n for n in REMAP_FOREIGN if n not in foreign_used] or REMAP_FOREIGN)
+                if fn_ not in foreign_used:
+                    foreign_used.append(fn_)
+                uses.append(("upath", rng.choice(REMAP_FOREIGN_CRATES), ("uname", fn_)))
+                tys.append(t_path(fn_))
+            rng.shuffle(uses)
+            items = [{"kind": "use", "tree": u} for u in uses]
+            if rng.random() < 0.4:
+                nm = names.pop()
+                own.append(nm)
+                items.append(definition(nm, rng.randrange(3)))
+                tys.append(t_path(nm))
+            items.append({"kind": "struct", "attrs": list(ts), "ident": "Holder%d%s%d" % (k, "ABCD"[ci], fi), "generics": [],
+                          "fields": ("named", [field([], "f%d" % j, wrap(t, j + k)) for j, t in enumerate(tys)])})
+            files.append(dict(rel="%s/src/%s" % (cc, ["lib.rs", "extra.rs"][fi]), crate=cc.replace("-", "_"), file={"attrs": [], "items": items}))
+    rng.shuffle(files)
+    meta = dict(providers=provs, consumers=conss, defined=defined, imported=sorted(imported), not_imported=sorted(set(defined) - imported),
+                own=own, foreign_used=foreign_used, styles=styles)
+    return files, meta
+
+
+def remap_table(rng, lang, meta, need_imported):
+    """2-8 keys: 1-3 names a crate imports from another (always for the language under test, mostly for the others), 0-1 defined but
+    never imported, 0-1 defined by a consumer itself, 0-2 foreign names the sources mention, the rest foreign names nobody mentions"""
+    total = rng.randint(2, 8)
+    keys = []
+    n_imp = rng.randint(1, 3) if (need_imported or rng.random() < 0.7) else 0
+    keys += rng.sample(meta["imported"], min(n_imp, len(meta["imported"]), total))
+    for cls in ("not_imported", "own"):
+        if meta[cls] and len(keys) < total and rng.random() < 0.4:
+            keys.append(rng.choice(meta[cls]))
+    for f in rng.sample(meta["foreign_used"], min(len(meta["foreign_used"]), rng.randint(0, 2))):
+        if len(keys) < total:
+            keys.append(f)
+    rest = [n for n in REMAP_FOREIGN if n not in meta["foreign_used"]]
+    keys += rng.sample(rest, min(len(rest), total - len(keys)))
+    rng.shuffle(keys)
+    return {k_: rng.choice(REMAP_VALUES[lang] + ["Mapped" + k_]) for k_ in keys}
+
+
+def remap_toml(tables, langs):
+    """one [<lang>.type_mappings] table per language, the keys in the order of the dicts"""
+    out = []
+    for L in langs:
+        out.append("[%s.type_mappings]" % L)
+        out += ["%s = %s" % (k, json.dumps(v)) for k, v in tables[L].items()]
+        out.append("")
+    return "\n".join(out)
+
+
+def remapped_imports_part(check):
+    """the configuration as an input dimension: workspaces whose crates import type names from each other, run under a typeshare.toml
+    in which every language has a [<lang>.type_mappings] table of 2-8 keys (different key sets per language) - some keys are names one
+    crate defines and another imports (`use p::T`, grouped / nested `use`, glob, qualified paths `p::T`), some are defined but never
+    imported or defined by the importing crate itself, the rest are foreign names.  The names remapped by the table of the language are
+    dropped from the imports (`ignored_reference_types`, a list made from a hash map's keys), so how that list is ordered and searched
+    must not show.  Folder mode and single-file mode, all six languages (Kotlin and TypeScript, which print import clauses, twice as
+    often); the configuration is given with -c or found from the working directory.  Every case: >= 12 fresh processes (fresh hash
+    seeds), walker thread counts, permuted arrival orders, and one run under the same tables written in another key and section order
+    (a TOML table is an unordered map: the same configuration).  All runs must leave byte-identical files, and the files must equal
+    the Lean pipeline + back-end models' text for that table."""
+    from c14 import file_name
+    rng = check.rng
+    ncases = 72 if check.thorough else 24
+    occ = {}
+    reps = 16 if check.thorough else 12
+    seq = ["kotlin", "typescript", "swift", "kotlin", "typescript", "scala", "kotlin", "typescript", "go", "kotlin", "typescript", "python"]
+    for w in range(ncases):
+        lang = seq[w % len(seq)]
+        occ[lang] = occ.get(lang, 0) + 1
+        # folder mode three times out of four for the two languages that print import clauses, every other time for the rest
+        multi = occ[lang] % 4 != 0 if lang in ("kotlin", "typescript") else occ[lang] % 2 == 1
+        files, meta = remapped_workspace(rng, w)
+        tables = {L: remap_table(rng, L, meta, need_imported=(L == lang)) for L in LANGS}
+        order = rng.sample(LANGS, len(LANGS))
+        toml = remap_toml(tables, order)
+        shuffled = {L: dict(rng.sample(sorted(tables[L].items()), len(tables[L]))) for L in LANGS}
+        if list(shuffled[lang]) == list(tables[lang]):
+            shuffled[lang] = dict(reversed(list(tables[lang].items())))
+        toml_other_order = remap_toml(shuffled, list(reversed(order)))
+        by_search = w % 2 == 1
+        g = Gen(rng, p_serialized_as=0.0)
+        n = len(files)
+        mapped_imported = sorted(k_ for k_ in tables[lang] if k_ in meta["imported"])
+        with Scratch() as sc:
+            for f in files:
+                sc.write("ws/" + f["rel"], render_file(f["file"]))
+            sc.write("typeshare.toml" if by_search else "conf/mappings.toml", toml)
+            sc.write("conf/other-order.toml", toml_other_order)
+            given = [] if by_search else ["-c", sc.path("conf/mappings.toml")]
+            if n <= 4:
+                orders = [",".join(map(str, p)) for p in itertools.permutations(range(n))]
+                if not check.thorough:
+                    orders = rng.sample(orders, min(len(orders), 4))
+            else:
+                orders = ["seed:%d" % rng.randint(0, 10**6) for _ in range(8 if check.thorough else 3)] + ["rev"]
+            threads = (1, 2, 3, 8, 16) if check.thorough else (1, 2, 8)
+            runs = [({}, given) for _ in range(reps)] + [({"TYPESHARE_VERIF_THREADS": str(t)}, given) for t in threads]
+            runs += [({"TYPESHARE_VERIF_ORDER": o}, given) for o in orders]
+            runs += [({}, ["-c", sc.path("conf/other-order.toml")])]
+            seen, first, rc0 = {}, None, None
+            for k, (env, extra) in enumerate(runs):
+                r, outs = run_once(sc, lang, multi, env, extra=extra)
+                check.saw(("remapped-imports", w, k), nontrivial=True)
+                check.count("remapped-imports-%s-%s" % (lang, "folder" if multi else "single"))
+                how = "run %d: %s" % (k, "the same tables, their keys and sections written in another order" if "other-order" in "".join(extra) else
+                                      " ".join("%s=%s" % kv for kv in env.items()) or "fresh process, nothing set")
+                if first is None:
+                    first, rc0 = outs, r
+                seen.setdefault(digest(outs) + "|%s" % r["rc"], (how, outs, r))
+        check.count("remapped-imports: %d keys in the table of the language" % len(tables[lang]))
+        check.count("remapped-imports: %d of the keys imported from another crate" % len(mapped_imported))
+        check.count("remapped-imports: config %s" % ("found from the working directory" if by_search else "given with -c"))
+        for st in set(meta["styles"].values()):
+            check.count("remapped-imports style " + st)
+        srcs = {f["rel"]: render_file(f["file"]) for f in files}
+        case = {"lang": lang, "mode": "-d <folder>" if multi else "-o <file>", "files": srcs, "typeshare.toml": toml,
+                "config": "typeshare.toml in the working directory" if by_search else "-c <that file>",
+                "args": ["--lang", lang] + lang_args(lang) + ["-d out" if multi else "-o out." + EXT[lang], "ws"],
+                "type_mappings_of_the_language": tables[lang], "keys_imported_from_another_crate": mapped_imported,
+                "workspace": {k_: meta[k_] for k_ in ("providers", "consumers", "defined", "imported", "own", "foreign_used", "styles")}}
+        if len(seen) > 1:
+            (e1, o1, r1), (e2, o2, r2) = list(seen.values())[:2]
+            fn = next((fn for fn in sorted(set(o1) | set(o2)) if o1.get(fn) != o2.get(fn)), None)
+            check.violation("%s %s output differs between two runs of the same binary over the same %d source files and the same typeshare.toml, "
+                            "whose [%s.type_mappings] has the %d keys %s, of which %s imported by one crate from another (%s vs %s; %s)" % (
+                                lang, "folder (-d)" if multi else "single-file (-o)", n, lang, len(tables[lang]), ", ".join(tables[lang]),
+                                (", ".join(mapped_imported) + (" is" if len(mapped_imported) == 1 else " are")) if mapped_imported else "none is",
+                                e1, e2, ("file %s: %s" % (fn, run_diff(o1.get(fn, ""), o2.get(fn, "")))) if fn else
+                                "exit status %s vs %s" % (r1["rc"], r2["rc"])),
+                            case=dict(case, run_a=e1, run_b=e2, **({"typeshare.toml of the re-ordered run": toml_other_order}
+                                                                   if "another order" in e1 + e2 else {})),
+                            impl={"a": o1, "b": o2}, failing_input=True)
+            return
+        if rc0["rc"] != 0:
+            check.count("remapped-imports: generation error")
+            continue
+        # the tie: the model's pipeline under the table of the language
+        cfg = {"package": "proto" if lang == "go" else "com.example", "version_header": True, "type_mappings": dict(tables[lang])}
+        jobs = [{"crate": f["crate"] if multi else "", "file_name": file_name(lang, f["crate"]) if multi else "x", "path": sc.path("ws/" + f["rel"]),
+                 "file": f["file"]}
+                for f in sorted(files, key=lambda f: f["rel"])]
+        names = set().union(*[l2.names_of(f["file"]) for f in files])
+        mreq, _, _ = l2.requests(lang, cfg, jobs, g, multi_file=multi)
+        ma = model([mreq], names=names if lang == "python" else None)[0]
+        if multi:
+            mtexts = dict(ma.get("ok") or {})
+            itexts = {f["crate"]: first[file_name(lang, f["crate"])] for f in files if file_name(lang, f["crate"]) in first}
+            if "Codable.swift" in first:
+                itexts["<post>/Codable.swift"] = first["Codable.swift"]
+        else:
+            mtexts = dict(enumerate(sorted((ma.get("ok") or {}).values())))
+            itexts = dict(enumerate(sorted(first.values())))
+        if "ok" not in ma or mtexts != itexts:
+            if l2.norm(ma) == {"err": "format"}:
+                continue
+            key = next((c for c in sorted(set(mtexts) | set(itexts), key=str) if mtexts.get(c) != itexts.get(c)), None)
+            check.violation("the binary's %s %s output under a typeshare.toml whose [%s.type_mappings] has the keys %s (%s imported from another "
+                            "crate) differs from the model's%s" % (
+                                lang, "folder" if multi else "single-file", lang, ", ".join(tables[lang]), ", ".join(mapped_imported) or "none",
+                                ": module %s: %s" % (key, l2.text_diff(mtexts.get(key, ""), itexts.get(key, ""))) if key is not None else
+                                ": the model answers %s" % json.dumps(ma)[:200]),
+                            case=case, impl=itexts, model=ma, failing_input=False,
+                            broken="correspondence L3 pipeline under type_mappings: ignored_reference_types (Generate.ignoredTypes; theorems TsV.C06.C06_multi*)")
+            return
+        if len(check.samples) < 7:
+            check.sample({"lang": lang, "mode": case["mode"], "type_mappings": tables[lang], "keys_imported_from_another_crate": mapped_imported,
+                          "files": sorted(srcs), "runs": len(runs), "distinct_outputs": len(seen)})
 
 
 def duplicate_names_part(check):
